@@ -136,6 +136,10 @@ class Sh:
                     self.viol("allowed-but-refused|%s|%s|%s" % (grant, load, site), "%s: refused although allowed: %s" % (desc, pm[:120]), wit); return
                 if mod.startswith("vmod") and ncreate == 0:
                     self.viol("allowed-but-nothing-created|%s|%s|%s" % (grant, load, site), "%s: compiled but no object was created (%s)" % (desc, rep[idx_main + 2][:80]), wit); return
+        if allowed and module_known and is_object_site and site.endswith(":lower") and site.split(":")[0] not in ("if-dead-branch", "function-body-uncalled"):
+            # the clone (taken with its own descriptors) has the rights of its source
+            if pm.startswith("ok") and not pc.startswith("ok"):
+                self.viol("clone-refused|%s|%s|%s" % (grant, load, site), "%s: accepted in the context but refused in its clone: %s" % (desc, pc[:120]), wit); return
         if grant == "granted-after-refusal" and not trusted:
             # the first compile (before the grant) must have been refused
             p0 = rep[first]
@@ -155,6 +159,9 @@ class Sh:
         inc = os.path.join(self.work, "inc.bloc")
         open(inc, "w").write("q = 41 + 1;\n")
         forms = [("import-path", 'import "%s"; a = vmod(1);' % lib), ("import-path-only", 'import "%s";' % lib), ("include", 'include "%s"; a = q;' % inc),
+                 ("import-path-parenthesised", 'import ("%s"); a = vmod(1);' % lib), ("import-path-concatenated", 'import "%s" + "%s";' % (lib[:10], lib[10:])),
+                 ("import-path-parenthesised-concat", 'import ("%s" + "%s");' % (lib[:-4], lib[-4:])), ("import-path-function-body", 'function fp() return integer is begin import ("%s"); return 1; end;' % lib),
+                 ("include-parenthesised", 'include ("%s"); a = q;' % inc),
                  ("include-in-function", 'function fi() return integer is begin include "%s"; return 1; end;' % inc), ("import-path-in-loop", 'for i in 1 to 1 loop import "%s"; end loop;' % lib)]
         for trusted in (False, True):
             for grant in ("never", "granted"):
@@ -175,7 +182,7 @@ class Sh:
                             if pr.startswith("ok"):
                                 self.viol("path-or-include-accepted|%s" % fname, "%s: accepted in an untrusted context" % desc, wit); continue
                         else:
-                            if not pr.startswith("ok") and "in-function" not in fname and "in-loop" not in fname:
+                            if not pr.startswith("ok") and "in-function" not in fname and "in-loop" not in fname and "function-body" not in fname:
                                 self.viol("trusted-refused|%s" % fname, "%s: refused in a trusted context: %s" % (desc, pr[:100]), wit); continue
                         self.res["nontrivial"].add(case_hash(["imp", trusted, grant, fname, route]))
 
